@@ -239,6 +239,22 @@ pub fn run(out: &mut Out, seed: u64, thorough: bool, scn: Option<&str>) {
         history(out, &mut rng, &pool, 0, "max_run", Some((Cfg::EnableMax(n), LA6, reps)));
     }
     history(out, &mut rng, &pool, 0, "disabled_run", Some((Cfg::Disable, LA3, 6)));
+    // the all-zero 6-byte label must be refused every time, by encap and by encap_ext
+    for use_ext in [false, true] {
+        let mgr = TableMgr { known: vec![] };
+        let mut rx = mk_rx(out, "labels", "zero_label_repeated", 3, 64, 3, mgr, true);
+        let mut enc = Encapsulator::new(DefaultCrc {});
+        let exts = [ExtSpec { id: 0x0211, data: vec![1, 2] }];
+        let t = ev_encap(out, &mut enc, &pool.small[0], 1, LA6, 0x0800, 64, None, None);
+        feed_tx(out, &mut rx, &t);
+        for i in 0..3 {
+            let t = ev_encap(out, &mut enc, &pool.small[i % 4], 1, LZ6, 0x0800, 80, if use_ext { Some(&exts) } else { None }, None);
+            feed_tx(out, &mut rx, &t);
+        }
+        let t = ev_encap(out, &mut enc, &pool.small[1], 1, LA6, 0x0800, 64, None, None);
+        feed_tx(out, &mut rx, &t);
+        rx.ev_drain(out);
+    }
     for n in [1u8, 2, 3] {
         for kind in 0..6 {
             at_max_then_fail(out, &pool, n, kind);
